@@ -1,11 +1,14 @@
 """Recorder for C12's function-sample baseline (run on the UNCHANGED tree:  PYTHONPATH=/verif:/repo /venv/bin/python oracle/record_c12.py).
 
-For every engine and every function of the sample (checks/c12_worker.function_sample) it records whether the value the engine
+For every engine and every typed call template (checks/c17_cases.all_calls + checks/c12.EXTRA_CALLS) it records whether the value the engine
 session returns THROUGH THE DIALECT READER (sqlglot read-back + DuckDB) agrees with the DuckDB session's value.  The reader is
 not the engine: many engine-specific forms cannot be read back faithfully (e.g. Spark's 1-based DAYOFWEEK read as DuckDB's
 0-based one).  The baseline therefore separates
     agree     -> a later disagreement is a REGRESSION the check reports (e.g. a wrong `_is_<engine>` branch)
     differ / rejected / duck-unsupported -> the reader cannot judge; stays evidence only
+"text" records, per engine and call, the SHAPE of a statement that does not parse / is not a textual fixed point of parse+render on the
+unchanged tree (most are sqlglot generator/parser asymmetries); the check reports those as the listed known findings and anything
+else (another call, another shape) as a regression.
 Nothing here is an oracle for the property itself."""
 import json
 import os
@@ -20,23 +23,33 @@ from vlib import core                  # noqa: E402
 
 def main():
     _, _, info = c12_facts.generate(core.REPO)
+    calls, _, _ = c12.function_calls(info)
     req = {"tables": {k: [list(r) for r in v] for k, v in c01.TABLES.items()}, "programs": [], "tables_for": {},
-           "functions": sorted(info["functions"]), "dispatch_names": []}
+           "calls": calls, "dispatch_names": []}
     with ThreadPoolExecutor(max_workers=7) as ex:
         results = dict(zip(c12.ENGINES, ex.map(lambda e: c12.run_worker(e, req), c12.ENGINES)))
-    duck = {f["fn"]: f for f in results["duckdb"]["functions"]}
-    out = {}
     for e, r in results.items():
+        if "fatal" in r:
+            raise SystemExit(f"{e}: {r['fatal']}")
+    duck = {f["id"]: f for f in results["duckdb"]["functions"]}
+    out, text = {}, {}
+    for e, r in results.items():
+        text[e] = {}
+        for f in r["functions"]:
+            shape, _ = c12.text_shape(f)
+            if shape:
+                text[e][f["id"]] = shape
         if e == "duckdb":
             continue
         out[e] = {}
         for f in r["functions"]:
-            out[e][f["fn"]] = c12.function_outcome(f, duck.get(f["fn"]))
+            out[e][f["id"]] = c12.function_outcome(f, duck.get(f["id"]))
     path = os.path.join(core.VERIF, "oracle", "c12_function_baseline.json")
     with open(path, "w") as fh:
         json.dump({"recorded_with": {"sqlglot": __import__("sqlglot").__version__, "duckdb": __import__("duckdb").__version__},
-                   "outcomes": out}, fh, indent=1, sort_keys=True)
-    print(path, {e: {k: list(v.values()).count(k) for k in ("agree", "differ", "rejected", "duck-unsupported")} for e, v in out.items()})
+                   "outcomes": out, "text": text}, fh, indent=1, sort_keys=True)
+    print({e: len(v) for e, v in text.items()})
+    print(path, {e: {k: list(v.values()).count(k) for k in ("agree", "names-differ", "differ", "rejected", "duck-unsupported")} for e, v in out.items()})
 
 
 if __name__ == "__main__":
